@@ -240,7 +240,7 @@ def check_unambiguous(case):
         # cvxopt's default KKT solver fails (ZeroDivisionError) on about half of these programs; the library's docstring
         # recommends cvxopt_kktsolver="ldl" for that case, so it is tried second (seeded change C11-w2 - the dual ignoring
         # the priors - slipped through while so few non-uniform cases had both forms solved)
-        for extra in ({}, {"cvxopt_kktsolver": "ldl"}, {"cvxopt_kktsolver": "ldl", "abs_ipm_opt_tol": 1e-7}):
+        for extra in ({}, {"cvxopt_kktsolver": "ldl"}):
             try:
                 out[pd] = _call(inputs, parg, strategy="unambiguous", primal_dual=pd, **extra)[0]
                 break
@@ -267,5 +267,5 @@ SUBCHECKS = [
     SubCheck("povm_primal", check_povm_primal, _ens_strategy(FAMILIES), _nt, quick=240, thorough=4000, case_timeout=30),
     SubCheck("laws", check_laws, _laws_case, _nt, quick=320, thorough=6000, case_timeout=60),
     SubCheck("named_sets", check_named, _named_case, _nt, quick=320, thorough=6000, case_timeout=60),
-    SubCheck("unambiguous", check_unambiguous, _ens_strategy(("generic", "two", "gu", "mixed", "orthogonal")), _nt, quick=400, thorough=6000, case_timeout=90),
+    SubCheck("unambiguous", check_unambiguous, _ens_strategy(("generic", "two", "gu", "mixed", "orthogonal")), _nt, quick=288, thorough=5000, case_timeout=60),
 ]
